@@ -3,13 +3,14 @@ C18 driver: one JSON request per line on stdin, one JSON answer per line on stdo
 Strings travel as arrays of Unicode code points, integers as decimal strings.
 
   constant C :=  {"k":"str","cp":[..]} | {"k":"int","v":"-12"} | {"k":"bool","v":true} | {"k":"other","t":"NoneType"}
-               | {"k":"float","fin":{"neg":b,"ip":[d..],"fp":[d..]|null,"ex":{"neg":b,"d":[d..]}|null}}
-               | {"k":"float","special":"inf"|"-inf"|"nan"}
+               | {"k":"float","bits":"n","fin":{"neg":b,"ip":[d..],"fp":[d..]|null,"ex":{"neg":b,"d":[d..]}|null}}
+               | {"k":"float","bits":"n","special":"inf"|"-inf"|"nan"}
 
   {"op":"const","c":C}                         -> {"ok":{"text":[..],"ty":"int"}} | {"err":"nonFinite"|"unsupported"}
   {"op":"spec","c":C,"out":{"ok":{"text":[..],"ty":"int"}} | {"err":"ValueError"}}
                                                -> {"holds":b,"why":s}          (OutcomeOk on the implementation's outcome)
   {"op":"rounds","text":[..],"bits":"n"}       -> {"holds":b}                  (literal is a double literal rounding to these bits)
+  {"op":"reprok","c":C}                        -> {"holds":b}                  (WFRepr and ReprFaithful: the trusted facts about repr, on this float)
   {"op":"at","c":C,"text":[..],"prev":n?}      -> {"rest":[..]|null}           (constAt / constAfter the character `prev`)
   {"op":"lexstr","text":[..],"tri":b}          -> {"v":[..]|null,"rest":[..]}  (string literal at the head of the text)
   {"op":"lexnum","text":[..]}                  -> {"int":{"v":s,"ty":s}} | {"float":{..}} | {"bool":b} | {"none":true}
@@ -57,12 +58,15 @@ def parseConst (j : Json) : Except String PyConst := do
   else if k == "bool" then return .bool (← (← j.getObjVal? "v").getBool?)
   else if k == "other" then return .other (← (← j.getObjVal? "t").getStr?)
   else if k == "float" then
+    let bits : Nat := match optField j "bits" with
+      | some b => (b.getStr?.toOption.bind String.toNat?).getD 0
+      | none => 0
     match optField j "special" with
     | some sp =>
       let s ← sp.getStr?
-      if s == "inf" then return .float (.inf false)
-      else if s == "-inf" then return .float (.inf true)
-      else if s == "nan" then return .float .nan
+      if s == "inf" then return .float (.inf false) bits
+      else if s == "-inf" then return .float (.inf true) bits
+      else if s == "nan" then return .float .nan bits
       else throw s!"bad special {s}"
     | none =>
       let f ← j.getObjVal? "fin"
@@ -74,7 +78,7 @@ def parseConst (j : Json) : Except String PyConst := do
       let ex ← match optField f "ex" with
         | some x => do pure (some ((← (← x.getObjVal? "neg").getBool?), (← fins (← x.getObjVal? "d"))))
         | none => pure none
-      return .float (.finite neg ip fp ex)
+      return .float (.finite neg ip fp ex) bits
   else throw s!"unknown kind {k}"
 
 def tyOfName (s : String) : Option CTy :=
@@ -83,7 +87,7 @@ def tyOfName (s : String) : Option CTy :=
 def holds (b : Bool) (why : String) : Json := Json.mkObj [("holds", b), ("why", why)]
 
 def kindName : PyConst → String
-  | .str _ => "str" | .int _ => "int" | .float _ => "float" | .bool _ => "bool" | .other t => t
+  | .str _ => "str" | .int _ => "int" | .float _ _ => "float" | .bool _ => "bool" | .other t => t
 
 /-- explanation of a failed `ConstOk` (the verdict itself is `decide (ConstOk ..)`) -/
 def whyNot (c : PyConst) (text : Str) (ty : CTy) : String :=
@@ -103,13 +107,13 @@ def whyNot (c : PyConst) (text : Str) (ty : CTy) : String :=
       if v ≠ n then s!"the literal {t} has value {v}, the constant is {n}"
       else if !fitsTy ty n then s!"the value {n} is recorded with C++ type {ty.name}, which cannot hold it (the bare literal has type {lt.name})"
       else s!"literal type {lt.name} cannot hold {n}"
-  | .float _ =>
+  | .float _ bits =>
     match cppFloatL text with
     | none => s!"the emitted text {t} is not a C++ floating literal"
     | some (d, lt) =>
       if lt ≠ .double then s!"the literal {t} has type {lt.name}, not double"
       else if ty ≠ .double then s!"recorded type {ty.name}, expected double"
-      else s!"the literal {t} has decimal value (neg={d.neg}) {d.mant}e{d.exp}, not the value of the constant's repr"
+      else s!"the literal {t} (exact value {if d.neg then "-" else ""}{d.mant}e{d.exp}) does not round to the double with bits {bits} that the query held"
   | .bool _ => s!"the emitted text {t} / type {ty.name} is not the bool literal of the constant"
   | .other k => s!"a constant of type {k} was rendered as {t}"
 
@@ -154,6 +158,10 @@ def handle (line : String) : String :=
         match cppFloatL text, bits.toNat? with
         | some (d, .double), some b => pure (Json.mkObj [("holds", roundsTo d b)])
         | _, _ => pure (Json.mkObj [("holds", false)])
+      else if op == "reprok" then
+        match (← parseConst (← j.getObjVal? "c")) with
+        | .float r bits => pure (Json.mkObj [("holds", decide (WFRepr r) && decide (ReprFaithful r bits))])
+        | _ => pure (Json.mkObj [("holds", true)])
       else if op == "at" then
         let c ← parseConst (← j.getObjVal? "c")
         let text ← cps (← j.getObjVal? "text")
